@@ -265,3 +265,257 @@ def write_json(doc, layout=None):
     if layout.get("views_first"):
         out = {"%VIEWS": out["%VIEWS"], **{k: v for k, v in out.items() if k != "%VIEWS"}}
     return json.dumps(out, indent=2 if layout.get("pretty") else None, ensure_ascii=bool(layout.get("ensure_ascii")))
+
+
+# ------------------------------------------------------------------------------------------------
+# Independent *reading* of documents into the canonical id-keyed dump (the Python twin of a spec reader).
+# tsinfo: type name -> {"super": name or None, "feats": {python feature name: spec}} with
+# spec = {"xml": name in documents, "kind": prim|ref|sofa|fsarray|primarray|fslist|primlist, "range": …, "multi": bool, "ek": int|float|str|bool|byte}
+# ------------------------------------------------------------------------------------------------
+
+def _u16_to_cp(text, off):
+    """UTF-16 offset -> code point offset (offsets that are not on a boundary are passed through)"""
+    n = 0
+    for i, ch in enumerate(text):
+        if n == off:
+            return i
+        n += 2 if ord(ch) > 0xFFFF else 1
+    if n == off:
+        return len(text)
+    return off
+
+
+def _eff(tsinfo, t):
+    chain = []
+    while t is not None and t in tsinfo:
+        chain.append(t)
+        t = tsinfo[t]["super"]
+    out = {}
+    for u in reversed(chain):
+        out.update(tsinfo[u]["feats"])
+    return out
+
+
+def _is_ann(tsinfo, t):
+    while t is not None and t in tsinfo:
+        if t == "uima.tcas.Annotation":
+            return True
+        t = tsinfo[t]["super"]
+    return False
+
+
+def _prim(spec_range, s):
+    base = spec_range
+    if base in ("uima.cas.Integer", "uima.cas.Long", "uima.cas.Short", "uima.cas.Byte"):
+        return int(s)
+    if base in ("uima.cas.Float", "uima.cas.Double"):
+        return {"f": _ftok(float(s))}
+    if base == "uima.cas.Boolean":
+        return {"true": True, "false": False}[s]
+    return s
+
+
+def _elems(ek, toks):
+    if ek == "int":
+        return [int(t) for t in toks]
+    if ek == "float":
+        return [{"f": _ftok(float(t))} for t in toks]
+    if ek == "bool":
+        return [{"true": True, "false": False}[t] for t in toks]
+    return list(toks)
+
+
+ARRAY_EK = {"uima.cas.IntegerArray": "int", "uima.cas.StringArray": "str", "uima.cas.BooleanArray": "bool",
+            "uima.cas.DoubleArray": "float", "uima.cas.FloatArray": "float", "uima.cas.LongArray": "int",
+            "uima.cas.ShortArray": "int", "uima.cas.ByteArray": "byte"}
+
+
+def xmi_to_dump(doc, tsinfo, prim_base=None):
+    """what an XMI document *says*, as the coarse id-keyed dump"""
+    prim_base = prim_base or (lambda r: r)
+    sofas, views, entries = {}, [], {}
+    for e in doc:
+        a = dict((k, v) for k, v in e["attrs"])
+        if e["ty"] == "uima.cas.Sofa":
+            sofas[int(a["xmi:id"])] = {"name": a["sofaID"], "num": int(a["sofaNum"]), "mime": a.get("mimeType"), "text": a.get("sofaString")}
+    members = {}
+    for e in doc:
+        a = dict((k, v) for k, v in e["attrs"])
+        if e["ty"] == "uima.cas.View":
+            members[int(a["sofa"])] = sorted(int(x) for x in a.get("members", "").split())
+    for sid, s in sofas.items():
+        views.append({"name": s["name"], "id": sid, "num": s["num"], "mime": s["mime"], "uri": None,
+                      "text": None if s["text"] is None else [ord(c) for c in s["text"]], "array": None,
+                      "members": members.get(sid, [])})
+    for e in doc:
+        if e["ty"] in ("uima.cas.NULL", "uima.cas.Sofa", "uima.cas.View"):
+            continue
+        a = dict((k, v) for k, v in e["attrs"])
+        kids = {}
+        for k, t in e["kids"]:
+            kids.setdefault(k, []).append(t)
+        fid = int(a["xmi:id"])
+        t = e["ty"]
+        feats = {}
+        if t in ARRAY_EK or t == "uima.cas.FSArray":
+            if t == "uima.cas.StringArray":
+                feats["elements"] = list(kids.get("elements", []))
+            elif "elements" in a:
+                v = a["elements"]
+                if t == "uima.cas.FSArray":
+                    feats["elements"] = [int(x) for x in v.split()]
+                elif t == "uima.cas.ByteArray":
+                    feats["elements"] = list(bytes.fromhex(v))
+                else:
+                    feats["elements"] = _elems(ARRAY_EK[t], v.split())
+            entries[str(fid)] = {"type": t, "feats": feats}
+            continue
+        eff = _eff(tsinfo, t)
+        by_xml = {sp["xml"]: (pn, sp) for pn, sp in eff.items()}
+        text = None
+        if _is_ann(tsinfo, t) and "sofa" in a:
+            text = sofas[int(a["sofa"])]["text"]
+        for xn, (pn, sp) in by_xml.items():
+            k = sp["kind"]
+            multi = bool(sp.get("multi"))
+            if k == "sofa":
+                if xn in a:
+                    feats[pn] = {"sofa": sofas[int(a[xn])]["name"]}
+            elif k == "prim":
+                if xn in a:
+                    v = _prim(prim_base(sp["range"]), a[xn])
+                    if _is_ann(tsinfo, t) and xn in ("begin", "end") and text:
+                        v = _u16_to_cp(text, v)
+                    feats[pn] = v
+            elif k == "ref" or (multi and k in ("fsarray", "primarray", "fslist", "primlist")):
+                if xn in a:
+                    feats[pn] = {"ref": int(a[xn])}
+            elif k == "fsarray":
+                if xn in a:
+                    feats[pn] = {"arr": [int(x) for x in a[xn].split()]}
+            elif k == "primarray":
+                if sp["ek"] == "str":
+                    if xn in kids:
+                        feats[pn] = {"arr": list(kids[xn])}
+                    elif xn in a:
+                        feats[pn] = {"arr": []}
+                elif xn in a:
+                    if sp["ek"] == "byte":
+                        feats[pn] = {"arr": list(bytes.fromhex(a[xn]))}
+                    else:
+                        feats[pn] = {"arr": _elems(sp["ek"], a[xn].split())}
+            elif k == "fslist":
+                if xn in a:
+                    feats[pn] = {"list": [int(x) for x in a[xn].split()]}
+            elif k == "primlist":
+                if sp["ek"] == "str":
+                    if xn in kids:
+                        feats[pn] = {"list": list(kids[xn])}
+                elif xn in a:
+                    feats[pn] = {"list": _elems(sp["ek"], a[xn].split())}
+        entries[str(fid)] = {"type": t, "feats": feats}
+    keys = sorted(entries, key=int)
+    return {"views": views, "fs": {k: entries[k] for k in keys}}
+
+
+def doc_closed(doc):
+    """ids pairwise distinct (sofas included) and every sofa reference / view member resolves; returns a
+    description of the first problem or None.  (Feature references are checked by comparing the dumps.)"""
+    ids = []
+    for e in doc:
+        a = dict((k, v) for k, v in e["attrs"])
+        if "xmi:id" in a and e["ty"] != "uima.cas.NULL":
+            ids.append(int(a["xmi:id"]))
+    if len(set(ids)) != len(ids):
+        return "two elements share an xmi:id: %r" % sorted(ids)
+    idset = set(ids) | {0}
+    for e in doc:
+        a = dict((k, v) for k, v in e["attrs"])
+        if e["ty"] == "uima.cas.View":
+            if int(a["sofa"]) not in idset:
+                return "view refers to a missing sofa"
+            for m in a.get("members", "").split():
+                if int(m) not in idset:
+                    return "view member %s is not in the document" % m
+        elif "sofa" in a and e["ty"] not in ("uima.cas.Sofa",):
+            try:
+                if int(a["sofa"]) not in idset:
+                    return "sofa reference does not resolve"
+            except ValueError:
+                pass
+    return None
+
+
+def dump_refs_resolve(dump):
+    ids = set(dump["fs"]) | {"0"}
+    for k, e in dump["fs"].items():
+        for n, v in e["feats"].items():
+            vals = []
+            if isinstance(v, dict) and "ref" in v:
+                vals = [v["ref"]]
+            elif isinstance(v, dict) and ("arr" in v or "list" in v):
+                vals = [x for x in (v.get("arr") or v.get("list") or []) if isinstance(x, int) and not isinstance(x, bool)]
+                # only reference-valued collections are ids; primitive ones are checked by equality of the dumps
+                continue
+            for r in vals:
+                if str(r) not in ids and r != "noid":
+                    return "reference %s.%s -> %r does not resolve" % (k, n, r)
+    return None
+
+
+def json_to_dump(doc, tsinfo):
+    """what a JSON CAS document *says*, as the fine id-keyed dump (every collection object is an entry)"""
+    sofas = {}
+    for f in doc["fss"]:
+        if f["ty"] == "uima.cas.Sofa":
+            d = dict((k, v) for k, v in f["feats"])
+            sofas[f["id"]] = d
+    views = []
+    for v in doc["views"]:
+        s = sofas.get(v["sofa"], {})
+        views.append({"name": v["name"], "id": v["sofa"], "num": s.get("sofaNum"), "mime": s.get("mimeType"), "uri": s.get("sofaURI"),
+                      "text": None if s.get("sofaString") is None else [ord(c) for c in s["sofaString"]],
+                      "array": s.get("@sofaArray"), "members": sorted(v["members"])})
+    entries = {}
+    for f in doc["fss"]:
+        if f["ty"] == "uima.cas.Sofa":
+            continue
+        t = f["ty"]
+        feats = {}
+        if t in ARRAY_EK or t == "uima.cas.FSArray":
+            el = f.get("elements")
+            vals = [] if el is None else list(el["v"])
+            if t in FLOAT_ARRAYS:
+                spec = {"NaN": "NaN", "Infinity": "Infinity", "Inf": "Infinity", "-Infinity": "-Infinity", "-Inf": "-Infinity"}
+                vals = [{"f": spec[x]} if isinstance(x, str) else x for x in vals]
+            feats["elements"] = vals
+            entries[str(f["id"])] = {"type": t, "feats": feats}
+            continue
+        eff = _eff(tsinfo, t)
+        by_xml = {sp["xml"]: (pn, sp) for pn, sp in eff.items()}
+        d = {}
+        for k, v in f["feats"]:
+            d[k] = v
+        text = None
+        if _is_ann(tsinfo, t) and d.get("@sofa") in sofas:
+            text = sofas[d["@sofa"]].get("sofaString")
+        for xn, (pn, sp) in by_xml.items():
+            if sp["kind"] == "sofa":
+                if "@" + xn in d:
+                    feats[pn] = {"sofa": sofas[d["@" + xn]]["sofaID"]}
+            elif sp["kind"] == "prim":
+                if xn in d:
+                    v = d[xn]
+                    if _is_ann(tsinfo, t) and xn in ("begin", "end") and text:
+                        v = _u16_to_cp(text, v)
+                    if sp["range"] in ("uima.cas.Float", "uima.cas.Double") and isinstance(v, int) and not isinstance(v, bool):
+                        v = {"f": _ftok(float(v))}
+                    feats[pn] = v
+                elif "#" + xn in d:
+                    feats[pn] = {"f": {"NaN": "NaN", "Infinity": "Infinity", "Inf": "Infinity", "-Infinity": "-Infinity", "-Inf": "-Infinity"}[d["#" + xn]]}
+            else:
+                if "@" + xn in d and d["@" + xn] is not None:
+                    feats[pn] = {"ref": d["@" + xn]}
+        entries[str(f["id"])] = {"type": t, "feats": feats}
+    keys = sorted(entries, key=lambda x: int(x))
+    return {"views": views, "fs": {k: entries[k] for k in keys}}
